@@ -226,6 +226,111 @@ func runC01(r *engine.Run) {
 		}
 	})
 
+	// ---- the same frame value in its other Go forms: empty non-nil lists (FOpts length 0 and
+	// FRMPayload length 0 are inside the quantification; an empty list is what filtering a
+	// pending-command queue leaves behind) and payloads held as several items
+	spF := (&engine.Space{}).Dim("mtype", 4).Dim("fport{absent,0,1}", 3).Dim("foptslen{0,3}", 2).Dim("frmlen{0,5}", 2).Dim("form", 8)
+	r.PartDims("data/value-forms", append(spF.Desc(), "forms: FOpts [] | FRMPayload [] | both [] | FRMPayload in 2 items | FRMPayload with an empty item | FOpts in 2 items | FOpts [] via a re-sliced queue | nil lists (reference)"), spF.N(), func(c *engine.Case) {
+		var ch [5]int
+		spF.Decode(c.Index, ch[:])
+		port := []int{-1, 0, 1}[ch[1]]
+		foLen, frmLen := 3*ch[2], 5*ch[3]
+		if port < 0 && frmLen > 0 || port == 0 && foLen > 0 {
+			c.Outcome("filtered(not a spec-valid combination)")
+			return
+		}
+		f := spec.DataFrame{MType: byte(2 + ch[0]), DevAddr: 0x01020304, FCnt: 7, ADR: true}
+		uplink := f.Uplink()
+		f.FOpts = fillBytes(foLen, 0xE1)
+		var frCmds []spec.Cmd
+		if port >= 0 {
+			f.HasPort, f.FPort = true, byte(port)
+			if port == 0 && frmLen > 0 {
+				frCmds = spec.Compose(uplink, frmLen, 3)
+				f.FRM = spec.CmdBytes(frCmds)
+			} else {
+				f.FRM = fillBytes(frmLen, 0x3C)
+			}
+		}
+		p, err := buildFrame(f, nil, nil)
+		if err != nil {
+			c.Fail("harness/build", err.Error(), nil)
+			return
+		}
+		mp := p.MACPayload.(*lorawan.MACPayload)
+		item := func(b []byte) lorawan.Payload { return &lorawan.DataPayload{Bytes: append([]byte(nil), b...)} }
+		na := func() { c.Outcome("value-forms/form-not-applicable") }
+		switch ch[4] {
+		case 0:
+			if foLen != 0 {
+				na()
+				return
+			}
+			mp.FHDR.FOpts = []lorawan.Payload{}
+		case 1:
+			if len(f.FRM) != 0 {
+				na()
+				return
+			}
+			mp.FRMPayload = []lorawan.Payload{}
+		case 2:
+			if foLen != 0 || len(f.FRM) != 0 {
+				na()
+				return
+			}
+			mp.FHDR.FOpts, mp.FRMPayload = []lorawan.Payload{}, []lorawan.Payload{}
+		case 3:
+			if len(f.FRM) < 2 {
+				na()
+				return
+			}
+			mp.FRMPayload = []lorawan.Payload{item(f.FRM[:2]), item(f.FRM[2:])}
+		case 4:
+			if !f.HasPort {
+				na()
+				return
+			}
+			mp.FRMPayload = []lorawan.Payload{item(nil), item(f.FRM)}
+		case 5:
+			if foLen < 2 {
+				na()
+				return
+			}
+			mp.FHDR.FOpts = []lorawan.Payload{item(f.FOpts[:1]), item(f.FOpts[1:])}
+		case 6:
+			if foLen != 0 {
+				na()
+				return
+			}
+			queue := []lorawan.Payload{item([]byte{2})}
+			mp.FHDR.FOpts = queue[:0]
+		case 7:
+		}
+		p.MIC = lorawan.MIC{1, 2, 3, 4}
+		want := append(f.Msg(), 1, 2, 3, 4)
+		c.Eval()
+		wire, err := p.MarshalBinary()
+		if err != nil {
+			c.Fail("data/value-forms/encoder-refuses-spec-valid-frame", fmt.Sprintf("form %d of frame %x refused: %v", ch[4], f.Msg(), err), nil)
+			return
+		}
+		c.NonTrivial()
+		if !bytes.Equal(wire, want) {
+			c.Fail("data/value-forms/bytes-differ-from-spec", fmt.Sprintf("form %d: library %x, specification %x", ch[4], wire, want), nil)
+			return
+		}
+		if t, err := p.MarshalText(); err != nil || string(t) != base64.StdEncoding.EncodeToString(want) {
+			c.Fail("data/value-forms/text-form", fmt.Sprintf("form %d: %q err %v", ch[4], t, err), nil)
+		}
+		var q lorawan.PHYPayload
+		if err := q.UnmarshalBinary(wire); err != nil {
+			c.Fail("data/decoder-refuses-own-encoding", fmt.Sprintf("%x: %v", wire, err), nil)
+		} else if msg := c01Compare(&q, f); msg != "" {
+			c.Fail("data/decoded-frame-differs", fmt.Sprintf("frame %x: %s", wire, msg), nil)
+		}
+		c.Outcome(fmt.Sprintf("value-forms/form=%d", ch[4]))
+	})
+
 	// ---- MHDR packing
 	r.PartDims("mhdr", []string{"major:4", "mtype:8"}, 32, func(c *engine.Case) {
 		major, mt := byte(c.Index%4), byte(c.Index/4)
@@ -342,8 +447,7 @@ func runC01(r *engine.Run) {
 		}
 	})
 
-
-	spA := (&engine.Space{}).Dim("dlsettings", 256).Dim("rxdelay", 16).Dim("cflist", 3)
+	spA := (&engine.Space{}).Dim("dlsettings", 256).Dim("rxdelay", 16).Dim("cflist{absent,channels,masks,all-unused channels,one channel}", 5)
 	jaRoundTrip := func(c *engine.Case, class string, j jaValue, lib *lorawan.JoinAcceptPayload, wire []byte, expectDecoded *lorawan.JoinAcceptPayload) {
 		c.Eval()
 		b, err := lib.MarshalBinary()
